@@ -25,7 +25,7 @@ Act(ev) ==
     [] Has(ev, "fault")  -> FaultAct(ev)
     [] ev.op = "reset"   -> Reset
     [] ev.op = "submit"  -> SubmitAny(ev.t, ev.res)
-    [] ev.op = "mkblock" -> MkAnyBlock(ev.p, ev.txs)
+    [] ev.op = "mkblock" -> MkAnyBlockX(ev.p, ev.txs, Has(ev, "mined"))
     [] ev.op = "play"    -> Play(ev.b, ev.res)
     [] ev.op = "pfm"     -> PlayForMiner(ev.b)
     [] ev.op = "walk"    -> Walk(ev.d, ev.prune, Range(ev.obs.pool), IF Has(ev, "readmit") THEN ev.readmit ELSE <<>>)
